@@ -5,7 +5,7 @@
 //!     changed is still "a raw representation": what is written must depend on the value alone), and
 //!   * boundary sizes of every table (255 / 256 / 65535 elements).
 //!
-//! Tables whose elements are referred to by index from elsewhere (the constant pool) are not touched.
+//! The constant pool, whose entries are referred to by index, only grows (a copy of its last entry is appended).
 
 use raw_class_file::*;
 
@@ -60,6 +60,12 @@ fn t(f: F, what: &'static str, min: usize, max: usize, table: &mut dyn Table) {
 
 /// calls `f` on every table of the value, container before contents, in declaration order
 pub fn visit(c: &mut ClassFile, f: F) {
+	// the constant pool only grows: its entries are referred to by index, a copy of the last one at the end is referred to by nothing
+	let entries = c.constant_pool.len();
+	let slots: usize = c.constant_pool.iter().map(|e| if matches!(e, CpInfo::Long { .. } | CpInfo::Double { .. }) { 2 } else { 1 }).sum();
+	if slots == entries {
+		t(f, "ClassFile.constant_pool", entries, U16 - 1, &mut c.constant_pool);
+	}
 	t(f, "ClassFile.interfaces", 0, U16, &mut c.interfaces);
 	t(f, "ClassFile.fields", 0, U16, &mut c.fields);
 	for x in &mut c.fields {
